@@ -27,7 +27,7 @@ PID = 'C19'
 LEVEL = 'exploration'
 EXHAUSTIVE = True
 RULE = ('complete enumeration of upstream in {absent, unbound, unbound chain of two, asynchronous, blocking, bound to '
-        'another loop, join of bound+unbound} x node type in {plain without kwargs (map), plain with kwargs (pluck, '
+        'another loop, join of bound+unbound in both orders} x node type in {plain without kwargs (map), plain with kwargs (pluck, '
         'sliding_window, union, zip, combine_latest, sink), loop-needing (partition, timed_window, timed_window_unique, '
         'delay, rate_limit, buffer, latest, map_async), 12 source classes} x asynchronous in {None, True, False} x loop '
         'in {none, current, other} (where the constructor accepts them); non-trivial = every configuration in which at '
@@ -43,7 +43,7 @@ NEEDS_KW = ['partition', 'timed_window', 'timed_window_unique', 'delay', 'rate_l
 NEEDS_NOKW = ['map_async']
 SOURCES = ['from_iterable', 'from_periodic', 'from_textfile', 'filenames', 'from_q', 'from_tcp', 'from_http_server',
            'from_process', 'from_kafka', 'FromKafkaBatched', 'from_websocket', 'from_mqtt']
-UPS = ['absent', 'unbound', 'chain', 'async', 'blocking', 'other', 'join']
+UPS = ['absent', 'unbound', 'chain', 'async', 'blocking', 'other', 'join', 'join_rev']
 
 
 def plan(tier):
@@ -103,6 +103,10 @@ def build(cfg, cur, other, bg_getter):
         b0 = Stream(asynchronous=True)
         u0 = Stream()
         ups = [b0, u0, b0.union(u0)]
+    elif u == 'join_rev':
+        b0 = Stream(asynchronous=True)
+        u0 = Stream()
+        ups = [b0, u0, u0.union(b0)]       # the undeclared stream comes first
     up = ups[-1] if ups else None
     if t == 'map':
         n = up.map(lambda x: x)
@@ -170,9 +174,9 @@ def expectation(cfg, cur, other):
     u, t, a, lp = cfg
     needs = t in NEEDS_KW or t in NEEDS_NOKW or t in SOURCES
     u_loop = {'absent': None, 'unbound': None, 'chain': None, 'async': 'current', 'blocking': 'bg', 'other': 'other',
-              'join': 'current'}[u]
+              'join': 'current', 'join_rev': 'current'}[u]
     u_async = {'absent': None, 'unbound': None, 'chain': None, 'async': True, 'blocking': False, 'other': None,
-               'join': True}[u]
+               'join': True, 'join_rev': True}[u]
     if a is not None and u_async is not None and a != u_async:
         return ('raise',)
     if lp != 'none' and u_loop is not None and lp != u_loop:
@@ -314,6 +318,21 @@ async def main():
     elif kind == 'from_q':
         q = queue.Queue(); q.put(1); q.put(2)
         s = ss.from_q(q, asynchronous=True)
+    elif kind == 'from_kafka_batched':
+        sys.path.insert(0, %(verif)r)
+        from vf import kafka_fake
+        broker = kafka_fake.Broker('t', 1)
+        for _ in range(4):
+            broker.produce(0)
+        kafka_fake.install(broker)
+        commit_threads = []
+        orig_commit = kafka_fake.Consumer.commit
+        def commit(self, *a, **k):
+            commit_threads.append(threading.get_ident())
+            return orig_commit(self, *a, **k)
+        kafka_fake.Consumer.commit = commit
+        s = Stream.from_kafka_batched('t', {'bootstrap.servers': 'x', 'group.id': 'g', 'auto.offset.reset': 'earliest'},
+                                      poll_interval=0.02, max_batch_size=2, asynchronous=True)
     elif kind == 'timed_window':
         s = Stream(asynchronous=True)
         s = s.timed_window(0.01)
@@ -325,6 +344,10 @@ async def main():
     if hasattr(s, 'start') and kind.startswith('from_'):
         s.start()
     await asyncio.sleep(0.15)
+    if kind == 'from_kafka_batched':
+        await asyncio.sleep(0.2)
+        seen.extend(commit_threads)           # the offset commits are callbacks of this source too
+        out['commits'] = len(commit_threads)
     out['threads'] = threading.active_count()
     out['io_loops'] = len(score._io_loops)
     out['callbacks'] = len(seen)
@@ -340,7 +363,7 @@ print(json.dumps(out))
 
 def pristine(kind):
     src = os.environ.get('STREAMZ_SRC', '/repo')
-    code = PRISTINE % {'src': src, 'kind': kind}
+    code = PRISTINE % {'src': src, 'kind': kind, 'verif': os.path.dirname(os.path.dirname(os.path.dirname(os.path.abspath(__file__))))}
     try:
         p = subprocess.run([sys.executable, '-c', code], capture_output=True, timeout=60)
     except subprocess.TimeoutExpired:
@@ -352,7 +375,7 @@ def pristine(kind):
 
 
 PRISTINE_KINDS = ['from_iterable', 'from_periodic', 'from_textfile', 'from_q', 'timed_window', 'timed_window_explicit',
-                  'buffer_explicit']
+                  'buffer_explicit', 'from_kafka_batched']
 
 
 def run_shard(seed, tier, shard, nshards):
@@ -396,6 +419,8 @@ def run_shard(seed, tier, shard, nshards):
                                               'node.asynchronous=%r' % (kind, r['threads'], r['io_loops'], r['asynchronous']), 'case': case})
         elif r['foreign']:
             out['violations'].append({'key': 'C19:callback-on-foreign-thread@%s' % kind, 'what': str(r), 'case': case})
+        elif kind == 'from_kafka_batched' and not r.get('commits'):
+            out['violations'].append({'key': 'C19:async-source-did-not-run-on-caller-loop@%s' % kind, 'what': 'no offset commit happened: ' + str(r), 'case': case})
         elif kind.startswith('from_') and not r['callbacks']:
             out['violations'].append({'key': 'C19:async-source-did-not-run-on-caller-loop@%s' % kind, 'what': str(r), 'case': case})
     # when only some shards run pristine kinds make sure the counter exists
